@@ -442,10 +442,11 @@ Definition gmt2sec_exact (s : bytes) : option Z :=
   match strp_exact s ISO_FMT with POk ns => Some (ns / 1000000000) | _ => None end.
 
 (* ------------------------------------------------------------------ d/h/m/s (pkg/bifs/relative_time.go), int64 arithmetic *)
-(* splitIntToDHMS; Z.quot/Z.rem are Go's / and % *)
+(* splitIntToDHMS = splitMagnitudeToDHMS on the magnitude taken as uint64 (repaired: -u on int64 overflowed for -2^63; the
+   uint64 magnitude of an int64 is Z.abs, at most 2^63); Z.quot/Z.rem are Go's / and % *)
 Definition split_dhms (u0 : Z) : Z * Z * Z * Z :=
   let neg := u0 <? 0 in
-  let u := if neg then wrap64 (- u0) else u0 in
+  let u := Z.abs u0 in
   let sign := if neg then -1 else 1 in
   let s := Z.rem u 60 in
   let u := Z.quot u 60 in
@@ -469,7 +470,7 @@ Definition sec2dhms (n : Z) : bytes :=
 
 Definition sec2hms (n : Z) : bytes :=
   let neg := n <? 0 in
-  let u := if neg then wrap64 (- n) else n in
+  let u := Z.abs n in (* uint64 magnitude, splitMagnitudeToDHMS(magnitude, 1, ...) *)
   let '(d, h, m, s) := split_dhms u in
   let h := wrap64 (h + wrap64 (d * 24)) in
   (if neg then ["-"] else []) ++ padz 2 h ++ ":" :: padz 2 m ++ ":" :: padz 2 s.
